@@ -32,6 +32,14 @@ class Impl:
         self.bases = bases
         self.codes = {}
         self.initial = [self.raw(i) for i in range(len(self.cls))]
+        # which class attributes are the class's OWN at start (others are inherited from the base class): reset()
+        # must not create own attributes, or a write to the base class attribute (a leak into every setting that
+        # was never entered) would be shielded by the harness itself
+        self.own = [{k for k in ("_state", "_global_value", "_global_float_value", "_global_double_value",
+                                 "_global_half_value") if k in c.__dict__} for c in self.cls]
+        self.base_initial = {b: {k: v for k, v in vars(b).items() if k in ("_state", "_global_value", "_global_float_value",
+                                                                             "_global_double_value", "_global_half_value")}
+                             for b in bases}
 
     def code(self, v, flag=False):
         if v is None:
@@ -51,17 +59,28 @@ class Impl:
             return (c._global_value, None, None)
         return (c._global_float_value, c._global_double_value, c._global_half_value)
 
+    def _restore(self, c, i, name, value):
+        if name in self.own[i]:
+            setattr(c, name, value)
+        elif name in c.__dict__:
+            delattr(c, name)  # back to the inherited attribute
+
     def reset(self):
+        for b, attrs in self.base_initial.items():
+            for k, v in attrs.items():
+                setattr(b, k, v)
         for i, (c, m) in enumerate(zip(self.cls, self.meta)):
             a, b, d = self.initial[i]
             if m["base"] == "_feature_flag":
-                c._state = a
+                self._restore(c, i, "_state", a)
                 if hasattr(c, "probe_vectors"):
                     c.probe_vectors = None
             elif m["base"] == "_value_context":
-                c._global_value = a
+                self._restore(c, i, "_global_value", a)
             else:
-                c._global_float_value, c._global_double_value, c._global_half_value = a, b, d
+                self._restore(c, i, "_global_float_value", a)
+                self._restore(c, i, "_global_double_value", b)
+                self._restore(c, i, "_global_half_value", d)
 
     def slots(self, i):
         m = self.meta[i]
